@@ -54,6 +54,8 @@ pub enum Sym {
     Deposit,
     Withdraw,
     Collect,
+    /// hostile: the borrower calls the vault's AfterTrade callback itself
+    ExternalAfterTrade,
     /// nested loan: same vault or the other vault
     Nested(bool, Vec<Sym>),
 }
@@ -163,7 +165,7 @@ fn gen_fees(rng: &mut Rng) -> [String; 3] {
 
 // ---- enumeration of symbolic programs -----------------------------------------------------
 
-const BASE: [Sym; 8] = [
+const BASE: [Sym; 9] = [
     Sym::RepayExact,
     Sym::RepayMinus1,
     Sym::RepayPlus,
@@ -172,15 +174,16 @@ const BASE: [Sym; 8] = [
     Sym::Deposit,
     Sym::Withdraw,
     Sym::Collect,
+    Sym::ExternalAfterTrade,
 ];
 
 /// number of atoms at `depth` (depth 1 = no nesting)
 fn n_atoms(depth: u32) -> u64 {
     if depth <= 1 {
-        8
+        9
     } else {
         // nested(same|other, prog of depth-1 with len<=2)
-        8 + 2 * n_progs(depth - 1, 2)
+        9 + 2 * n_progs(depth - 1, 2)
     }
 }
 pub fn n_progs(depth: u32, maxlen: u32) -> u64 {
@@ -194,10 +197,10 @@ pub fn n_progs(depth: u32, maxlen: u32) -> u64 {
     tot
 }
 fn atom_at(depth: u32, mut i: u64) -> Sym {
-    if i < 8 {
+    if i < 9 {
         return BASE[i as usize].clone();
     }
-    i -= 8;
+    i -= 9;
     let inner = n_progs(depth - 1, 2);
     let same = i < inner;
     let j = if same { i } else { i - inner };
@@ -260,6 +263,7 @@ impl VaultScen {
                 Sym::Deposit => out.push(Action::Deposit { vault: vault.clone(), asset: asset.clone(), amount: Uint128::new(5000) }),
                 Sym::Withdraw => out.push(Action::WithdrawShares { vault: vault.clone(), lp: lp.clone(), amount: Uint128::new(700) }),
                 Sym::Collect => out.push(Action::CollectFees { vault: vault.clone() }),
+                Sym::ExternalAfterTrade => out.push(Action::CallAfterTrade { vault: vault.clone(), old_balance: Uint128::zero(), loan_amount: Uint128::zero() }),
                 Sym::Nested(same, inner) => {
                     let v2 = if *same { vault_idx } else { 1 - vault_idx };
                     let a2 = (amount / 2).max(1);
@@ -546,8 +550,8 @@ impl Scenario for VaultScen {
                 let mut j = i - n_direct2;
                 let mut p = vec![];
                 for _ in 0..3 {
-                    p.push(BASE[(j % 8) as usize].clone());
-                    j /= 8;
+                    p.push(BASE[(j % 9) as usize].clone());
+                    j /= 9;
                 }
                 (false, p)
             } else {
@@ -652,7 +656,7 @@ fn random_prog(rng: &mut Rng, depth: u32, maxlen: usize) -> Vec<Sym> {
     let len = rng.range(1, maxlen as u64) as usize;
     let mut out = vec![];
     for _ in 0..len {
-        let pick = rng.below(if depth > 1 { 14 } else { 11 });
+        let pick = rng.below(if depth > 1 { 15 } else { 12 });
         out.push(match pick {
             0..=3 => Sym::RepayExact,
             4 => Sym::RepayMinus1,
@@ -662,6 +666,7 @@ fn random_prog(rng: &mut Rng, depth: u32, maxlen: usize) -> Vec<Sym> {
             8 => Sym::Deposit,
             9 => Sym::Withdraw,
             10 => Sym::Collect,
+            11 => Sym::ExternalAfterTrade,
             _ => Sym::Nested(rng.chance(2, 3), random_prog(rng, depth - 1, 2)),
         });
     }
@@ -1038,6 +1043,15 @@ fn do_loan(s: &mut VaultScen, ctx: &mut Ctx, actor: usize, router: bool, amount:
             if before.borrower >= fees_all {
                 ctx.fail("C06", "exact_repayment_suffices", opname, None, format!("loan of {amount} repaid with exactly the quoted payback failed: {}", r.outcome.err_text()));
             }
+        }
+    }
+    let has_ext = has_action(program, &|a| matches!(a, Action::CallAfterTrade { .. }));
+    if has_ext {
+        ctx.eval("C16");
+        ctx.probe("external_after_trade_attempted");
+        if ok {
+            ctx.fail("C16", "vault_callback_reserved", "external_after_trade_accepted", None, format!("a transaction in which the borrower called the vault's AfterTrade callback itself succeeded ({opname}, loan {amount})"));
+            ctx.fail("C06", "vault_callback_reserved", "external_after_trade_accepted", None, format!("a transaction in which the borrower called the vault's AfterTrade callback itself succeeded ({opname}, loan {amount})"));
         }
     }
     if exact_only && ok { ctx.probe("exact_repay_ok"); }
